@@ -603,6 +603,9 @@ class DemographicEvent(ABC):
         # loop over all times
         for t in times_all:
 
+            # key the result by plain floats: NumPy scalars used as dictionary keys do not survive repeated serialization
+            t = float(t)
+
             # for each key
             for key, r in rates.items():
 
